@@ -71,7 +71,9 @@ func registerCtxModel(ex *Explorer) {
 	// vrt.Reopen(db): what a new process sees: committed state only
 	I[vrtPath+".Reopen"] = func(in *Interp, fn *ssa.Function, a []Value) Value {
 		st, _ := in.storeOf(a[0].(*Cell))
-		st.pending = nil
+		for _, t := range append([]*txHandle{}, st.open...) {
+			st.finish(t)
+		}
 		in.crashAt = -1
 		in.faultAt = -1
 		return in.newHandle("DB", &dbHandle{st})
